@@ -382,6 +382,17 @@ func scenarioC12(x *runner.X) {
 			head := mini(len(full), 80)
 		sweep:
 			for pos := 0; pos < head; pos++ {
+				// one-byte fields (value size, hash length, kind tags): both ends of the byte range
+				for _, v := range []byte{0, 1, 2, 3, 4, 0x7f, 0x80, 0xfb, 0xfc, 0xfd, 0xfe, 0xff} {
+					if full[pos] == v {
+						continue
+					}
+					bad := append([]byte(nil), full...)
+					bad[pos] = v
+					if run(fmt.Sprintf("byte at %d = %#x", pos, v), len(bad), func() { open(bad) }) {
+						break sweep
+					}
+				}
 				for _, be := range []bool{false, true} {
 					for _, v := range v64 {
 						if pos+8 > len(full) {
